@@ -42,8 +42,26 @@ theorem lex_boundaries (b : Bytes) (hu : Utf8Ok b) (ts : List Token) (h : tokeni
     ∀ t ∈ ts, IsCharBoundary b t.startpos ∧ IsCharBoundary b t.endpos := by
   have := tokenize_post b; rw [h] at this
   intro t ht
-  have := this.2.2.2 hu t ht
+  have := this.2.2.2.1 hu t ht
   exact ⟨this.1.isCharBoundary, this.2.isCharBoundary⟩
+
+/-- **token lines are 1-based** -/
+theorem lex_line_pos (b : Bytes) (ts : List Token) (h : tokenize b = .ok ts) : ∀ t ∈ ts, 1 ≤ t.line := by
+  have := tokenize_post b; rw [h] at this; exact this.2.2.2.2.1
+
+/-- **a token behind a comment is not above the comment's last line**: a comment token carries the line on which
+    it starts; every later token's line is at least that line plus the number of newline bytes in the comment's span
+    (`nlCount b a e` = number of bytes 10 in `b[a..e)`, the total version of the model's `countNewlines`, see
+    `countNewlines_eq`; the blanks before `/*` that belong to the span contain no newline) -/
+theorem lex_comment_lines (b : Bytes) (ts : List Token) (h : tokenize b = .ok ts) :
+    ∀ i j (hi : i < ts.length) (hj : j < ts.length), i < j → ts[i].ttype = .comment →
+      ts[i].line + nlCount b ts[i].startpos ts[i].endpos ≤ ts[j].line := by
+  have := tokenize_post b; rw [h] at this
+  exact List.pairwise_iff_getElem.1 this.2.2.2.2.2
+
+/-- `nlCount` is what the model's `count_newlines(&filebytes[a..e])` computes -/
+example (b : Bytes) (a e : Nat) (h1 : a ≤ e) (h2 : e ≤ b.size) : countNewlines b a e = .ok (nlCount b a e) :=
+  countNewlines_eq h1 h2
 
 /-! ### non-vacuity -/
 
@@ -69,6 +87,15 @@ example : Utf8Ok sampleUtf8 := by
   intro p h; simp only [sampleUtf8, List.size_toArray, List.length_cons, List.length_nil] at h
   have : p = 0 ∨ p = 1 ∨ p = 2 ∨ p = 3 ∨ p = 4 ∨ p = 5 ∨ p = 6 ∨ p = 7 ∨ p = 8 ∨ p = 9 := by omega
   rcases this with h | h | h | h | h | h | h | h | h | h <;> subst h <;> decide +revert
+
+/-- `x /*\n\n*/ y`: the comment starts on line 1 (span `[1, 8)`, two newlines), `y` is on line 3 -/
+def sampleComment : Bytes := #[120, 32, 47, 42, 10, 10, 42, 47, 32, 121]
+
+example : tokenize sampleComment = .ok
+    [{ ttype := .identifier, startpos := 0, endpos := 1, line := 1 },
+     { ttype := .comment, startpos := 1, endpos := 8, line := 1 },
+     { ttype := .identifier, startpos := 9, endpos := 10, line := 3 }] ∧ nlCount sampleComment 1 8 = 2 := by
+  decide +kernel
 
 /-- the errors are reachable -/
 example : tokenize #[47, 42] = .err .UnclosedComment 1 := by decide +kernel
